@@ -323,8 +323,9 @@ func TestC15(t *testing.T) {
 		case 5:
 			c14tcpClient(aux, seed, 7000+i)
 			c14serial(aux, seed, 7000+i)
+			c14serial(aux, seed, 7000+4*i) // (multiples of four: no failed open before the device goes away for good, and the node is closed while it is away)
 			c14servers(aux, seed, 7000+i)
-			rep.Count("workload_c14", 3)
+			rep.Count("workload_c14", 4)
 		}
 		rep.Eval(1)
 	}
